@@ -44,6 +44,7 @@ def setup(ctx):
     ctx.require("monitor", "store_location_calls", 6)
     ctx.require("monitor", "calls_after_failed_import", 9)
     ctx.require("monitor", "calls_with_neighbour_pins", 30)
+    ctx.require("monitor", "cli_get_calls", 12)
     ctx.require("monitor", "calls", 31)
     ctx.require("monitor", "failed_verifications", 19)
     ctx.require("monitor", "verify_returns_seen", 29)
@@ -322,6 +323,8 @@ def run(ctx):
                 run_after_failed_import(ctx, peer, idents, state, tmp, mon)
             if ctx.mine(k + 6):
                 run_neighbour_pins(ctx, peer, idents, state, tmp, mon)
+            if ctx.mine(k + 7):
+                run_cli_get(ctx, peer, idents, state, tmp, mon)
             # ---- concurrent calls on one client
             if ctx.mine(k + 1):
                 run_concurrent(ctx, peer, idents, state, tmp, mon)
@@ -517,6 +520,53 @@ def run_neighbour_pins(ctx, peer, idents, state, tmp, mon):
                 elif res[0] == "response":
                     ctx.undecided("neighbour-pins: verification did not fail (see C03)")
                 ctx.case(("neighbour-pins", op, asked, neighbour, order, res[0], bool(received)), True, sample=wit)
+
+
+def run_cli_get(ctx, peer, idents, state, tmp, mon):
+    """`nauyaca get URL` as a user runs it (typer's CliRunner, HOME pointing at a scratch home that holds the pin
+    store): a pinned host that presents another certificate gets nothing - with default options, with redirects
+    off, verbose, with a short timeout - and the command fails."""
+    from cryptography import x509
+    from typer.testing import CliRunner
+
+    from nauyaca.__main__ import app
+    from nauyaca.security.tofu import TOFUDatabase
+
+    good = x509.load_der_x509_certificate(idents["good"].der)
+    old_home = os.environ.get("HOME")
+    try:
+        for i, extra in enumerate(([], ["--no-redirects"], ["-v"], ["-t", "5"], ["--max-redirects", "0"], ["--trust"])):
+            for situation in ("changed", "pinned-same"):
+                home = os.path.join(tmp, f"home-{i}-{situation}")
+                os.makedirs(os.path.join(home, ".nauyaca"))
+                os.environ["HOME"] = home
+                TOFUDatabase(Path(home) / ".nauyaca" / "tofu.db").trust("127.0.0.1", peer.port, good)
+                state.update(mode="eager", redirect_to=None)
+                state["go"].set()
+                peer.swap_cert(idents["other"] if situation == "changed" else idents["good"])
+                url = f"gemini://127.0.0.1:{peer.port}/private?q=SECRETQUERY"
+                n0 = len(peer.log)
+                r = CliRunner().invoke(app, ["get", url] + extra)
+                peer.wait_idle(3)
+                received = b"".join(x["received"] for x in peer.log[n0:])
+                ctx.count("monitor", "calls")
+                ctx.count("monitor", "cli_get_calls")
+                out = (r.output or "")
+                wit = {"command": "nauyaca get " + " ".join([url] + extra), "pin": situation, "exit_code": r.exit_code, "output_tail": out[-200:], "peer_received_len": len(received), "peer_received_head": received[:100]}
+                if situation == "changed":
+                    ctx.count("monitor", "failed_verifications")
+                    if received:
+                        ctx.violation("peer-received-bytes:entry=cli-get:pin=changed", f"{len(received)} request bytes reached a peer whose certificate differs from the pin", wit)
+                    elif r.exit_code == 0:
+                        ctx.violation("changed-certificate-not-reported:entry=cli-get", "the command succeeded although the pinned host presented another certificate", wit)
+                elif not received or r.exit_code != 0:
+                    ctx.violation("legitimate-request-not-sent:entry=cli-get", f"pinned host with its pinned certificate: exit code {r.exit_code}, {len(received)} bytes sent", wit)
+                ctx.case(("cli-get", tuple(extra), situation, r.exit_code, bool(received)), True, sample=wit)
+    finally:
+        if old_home is None:
+            os.environ.pop("HOME", None)
+        else:
+            os.environ["HOME"] = old_home
 
 
 def run_reuse_after_context(ctx, peer, idents, state, tmp, mon):
